@@ -12,6 +12,7 @@ import numpy as np
 
 from vp import gen, probe, propmodel, refmodels as rm
 from vp import defaults
+from vp import reuse
 
 RULE = ('seeded generator: random apertures 4..22 per side and random partitions of their support into 1..8 segments '
         '(stripes / nearest-seed blobs / interleaved pixels), random OPDs, chains of one or two masked planes (second '
@@ -94,6 +95,7 @@ def _cmp(ctx, oracle, key, what, wa, wb, desc, scale_tol=None):
 
 def workload(ctx, lentil):
     defaults.run(ctx, lentil, 'C03', 'seg=mono:field')
+    reuse.run(ctx, lentil, 'C03', 'seg=mono:field')
     rng = ctx.rng
     n = ctx.count(110, 800)
     hi = 22 if ctx.tier == 'quick' else 40
